@@ -19,7 +19,7 @@ BOUNDS = {
                         "round-tripped with every decoded witness checked against its node's target type",
     "c14_jet_codes_replay": "all 1267 jets, three continuations each; all 24-bit inputs per family",
     "c16_policy_roots_replay": "4105 policies: 10 leaves (trivial, unsatisfiable, after/older at and just past the environment's lock times, sha256 and key with and without preimage/signature), all and/or/threshold(1,2) nodes over pairs, single-child thresholds, a sample of 3-child thresholds with k = 0..3, and a sample of depth-2 combinations; one environment",
-    "c16_policy_sort_replay": "all policies of nesting depth <= 2 over After(1..3) leaves (and/or/threshold)",
+    "c16_policy_sort_replay": "all policies of nesting depth <= 2 over After(1..3) leaves (and/or/threshold incl. single-child and shared-Arc children): canonical, idempotent, and equal to the sorted form of the mirrored policy",
     "c05_machine_semantics_replay": "jet-free programs: every combinator over word/iden/unit leaves to depth 2, composed pairwise (comp) and under a word-selected case; up to 4 input values each; debug assertions on",
     "c13_natural_replay": "numbers 1..=70000 and 2^p-2..2^p+2 for p <= 31 (encode, decode, bound); every 24-bit string (decode, re-encode)",
     "c18_dag_replay": "comp/pair DAGs of depth <= 3 over unit with every reuse/copy choice among the first 6 sub-DAGs per level, as commitment-time programs",
